@@ -394,23 +394,12 @@ Lemma replace_empty_law spec now d d' :
   replace_id_risk spec (VDoc []) d = false -> doc_id d' <> None ->
   apply_update spec (VDoc []) false now d = Ok d' -> replace_law (VDoc []) d d' = true.
 Proof.
-  intros Hrisk Hid H. simpl in H. inversion H as [Hd']. clear H.
-  unfold replace_id_risk in Hrisk. simpl in Hrisk.
-  unfold replace_law. cbn [patch]. 
-  set (id := match spec with
-             | VDoc sfs => match assoc "_id" sfs with
-                           | Some i => Some i
-                           | None => match d with VDoc dfs => assoc "_id" dfs | _ => None end
-                           end
-             | _ => None end) in *.
-  destruct id as [i|] eqn:Eid.
-  2:{ subst d'. simpl in Hid. congruence. }
+  intros _ Hid H. simpl in H. inversion H as [Hd']. clear H.
+  unfold replace_law. cbn [patch].
+  destruct d as [| | | | | | |dfs|]; try (subst d'; simpl in Hid; congruence).
+  destruct (assoc "_id" dfs) as [i|] eqn:Eid; [|subst d'; simpl in Hid; congruence].
   destruct (is_null i) eqn:En; [subst d'; simpl in Hid; congruence|].
-  subst d'. cbn [forallb andb]. simpl.
-  unfold id in Eid. destruct spec as [| | | | | | |sfs|]; try discriminate.
-  destruct (assoc "_id" sfs) as [j|].
-  - inversion Eid; subst j. apply negb_false_iff in Hrisk. exact Hrisk.
-  - unfold doc_id. rewrite Eid. simpl. apply value_eqb_refl.
+  subst d'. cbn [forallb andb]. simpl. rewrite Eid. simpl. apply value_eqb_refl.
 Qed.
 
 Theorem c02_step_replace pre5 c f r upsert c' rr i i' :
@@ -432,7 +421,7 @@ Proof.
   - change (patch (VDoc [])) with (VDoc []) in *. eapply replace_empty_law; eassumption.
   - assert (Hk0 : starts_dollar k0 = false).
     { simpl in Hfirst. destruct (starts_dollar k0); [congruence|reflexivity]. }
-    eapply C02Replace.replace_law_sound; [| | |exact Hrisk|exact Ha].
+    eapply C02Replace.replace_law_sound; [| | |exact Hrisk|intros _; exact Hid|exact Ha].
     + apply patch_idem.
     + apply wf_patch. exact Hr.
     + rewrite patch_doc in *. cbn [patch_fields map fst snd] in *.
